@@ -71,6 +71,21 @@ CHECKS = {
   "Same space as C06 plus every predicate kind followed by an erroring step and operands that yield items before failing: silent never returns ErrVerbose; successful runs unchanged; suppressible error => no error with the reference's prefix of items (Query/First) or NULL unless established (Exists/Match); non-suppressible errors (unknown variable, tz-requiring cast, datetime template, invalid decimal precision/scale) keep their class; the verbose run still reports the enclosing path's own error after any predicate.",
   "Cancellation as a non-suppressible error is covered by C20; order-dependent cases (multi-member objects) are declined.",
   "DESIGN.md §3 C08"),
+ "C02": ("model_checking", "lex-parse",
+  "bounded exhaustive enumeration of programs/strings; oracle = relation between real executions (Parse, String, re-Parse, marshalling, Query) checked on every accepted input",
+  "Round trip Parse -> String -> Parse (tree through exported accessors incl. IntegerNode vs NumericNode, mode, predicate flag; fixed point; Text/Binary/Value-Scan round trips incl. decoding into an already used Path; same Query results on 29 documents) over the full language (<=3 nodes), nested constructs, every precedence/associativity shape with and without trailing accessors, the numeric spelling grid, a boundary set of code points (thorough: every Unicode scalar value) in 9 roles and all ordered pairs of a 39-rune set, all .** bound pairs, all flag strings, and every input the implementation accepts among all strings of length <=4 (thorough 5) over a 49-symbol alphabet and all lexeme sequences of length <=3.",
+  "Texts outside the enumerations are not covered; the integral-numeric printing defect is a recorded known finding.",
+  "DESIGN.md §3 C02"),
+ "C03": ("model_checking", "lex-parse",
+  "bounded exhaustive enumeration of spellings of abstract paths, trees compared with the generating abstract path; plus tree agreement with an independent recursive-descent parser on exhaustive string enumerations",
+  "Every escape spelling of every code point of a boundary set (thorough: every Unicode scalar value) in 5 quoted roles and as identifier escapes x 12 followers incl. end of input; a numeric grid in every base/underscore/exponent form x 11 positions; every case pattern of every keyword; != vs <>; every operator pair (thorough triple) under minimal/full/redundant parentheses; white space and comments at every token boundary of 130 seeds; IsPredicate/PgIndexOperator; plus refparse tree agreement on all strings of length <=3 (thorough 4), lexeme sequences, single edits and near-miss numeric/escape strings.",
+  "Trusts refparse (mc/refparse.go) and the harness's abstract-path generator as the models of the documented syntax; spellings outside the enumerations are not covered.",
+  "DESIGN.md §3 C03"),
+ "C04": ("model_checking", "lex-parse",
+  "exhaustive enumeration of strings up to a length bound over a lexer-derived alphabet, lexeme sequences, all single-byte edits of seeds and systematic near-misses; invariants on every execution plus accept/reject agreement with an independent recogniser",
+  "11.6 million inputs in the quick tier (all strings of length <=4 over 49 symbols, lexeme sequences <=3, every single-byte substitution/insertion/deletion of 130 seeds, numeric-looking strings, escape tails, prefixes, invalid UTF-8 pairs, regex flags/patterns, limit literals under 26 wrappings, @/last placements): no panic, exactly one of (path,error), error chains, MustParse, Scan/UnmarshalText/UnmarshalBinary, accept/reject agreement with refparse, every accepted like_regex compiles, 60 s hang watchdog.",
+  "Inputs longer than the bounds that are not within one edit of a seed are not covered; runaway allocation is not sandboxed (no subprocess/ulimit); refparse declines a few forms the documentation leaves open.",
+  "DESIGN.md §3 C04"),
 }
 
 PENDING = {}
@@ -107,6 +122,7 @@ def main():
         },
         "engines": [
             {"name": "ref-conformance", "path": "/verif/mc", "serves_properties": [], "kind_free_text": "bounded exhaustive enumeration of programs x documents x configurations against a reference interpreter / relations between real executions"},
+            {"name": "lex-parse", "path": "/verif/mc/refparse.go", "serves_properties": ["C02", "C03", "C04"], "kind_free_text": "exhaustive string/spelling enumeration against an independent recursive-descent parser and round-trip relations"},
             {"name": "step-graph", "path": "/verif/mc/c09.go", "serves_properties": ["C09"], "kind_free_text": "explicit-state exploration whose transition function is the real Query"},
             {"name": "poll-fault", "path": "/verif/mc/c20.go", "serves_properties": ["C20"], "kind_free_text": "fault-point enumeration over context polls"},
         ],
